@@ -253,6 +253,16 @@ type sessBad struct {
 }
 
 func runHistory(hist []sessCall, env []string) (map[string]string, string, error) {
+	probe, st, err := runHistoryT(hist, env, 60*time.Second)
+	if err != nil && st == "timeout" {
+		// a loaded machine is not a hang: only a process that is still running after ten minutes
+		// (thousands of times the normal duration) is reported
+		return runHistoryT(hist, env, 600*time.Second)
+	}
+	return probe, st, err
+}
+
+func runHistoryT(hist []sessCall, env []string, limit time.Duration) (map[string]string, string, error) {
 	cmd := exec.Command(os.Args[0], "sessionrun")
 	cmd.Env = append(os.Environ(), env...)
 	in, _ := json.Marshal(hist)
@@ -274,7 +284,7 @@ func runHistory(hist []sessCall, env []string) (map[string]string, string, error
 			}
 			return nil, st, err
 		}
-	case <-time.After(60 * time.Second):
+	case <-time.After(limit):
 		cmd.Process.Kill()
 		return nil, "timeout", fmt.Errorf("timeout")
 	}
